@@ -46,13 +46,21 @@ package sqlx
 //@ func mapStructFieldsIntoSlice
 //@   prop C11
 //@   opaque unwrapFields, getTaggedFieldValueMap, Deref
+// never panics: positional mapping stays inside the destination's fields for every number of columns
+//@   safety bounds
+//@   observe NCols = len(columns)
+//@   observe NFields = len(ret(unwrapFields))
+//@   observe Strict = strict
+//@   replay sqlx_mapStructFieldsIntoSlice
 //@   let tmap = taggedMap
+//@   loop 1 invariant 0 <= i
 //@   loop 2 invariant -1 <= rangeindex && rangeindex <= len(columns) && len(values) == len(columns)
 //@   loop 2 iteration-ensures [by-column-name] has(tmap, at_head(columns[rangeindex + 1])) ==> values[at_head(rangeindex + 1)] == tmap[at_head(columns[rangeindex + 1])]
 //@   loop 2 iteration-ensures [unknown-column-discarded] !has(tmap, at_head(columns[rangeindex + 1])) ==> typeis(values[at_head(rangeindex + 1)], ptr(any)) && fresh(values[at_head(rangeindex + 1)].val)
 //@   ensures [strict-needs-all-fields] strict && len(columns) < len(ret(unwrapFields)) ==> result1 == ErrNotMatchDestination && result0 == nil && calls(getTaggedFieldValueMap) == 0
 //@   ensures [tag-error-passed-on] calls(getTaggedFieldValueMap) == 1 && ret(getTaggedFieldValueMap, 1) != nil ==> result1 == ret(getTaggedFieldValueMap, 1) && result0 == nil
 //@   ensures [one-destination-per-column] result1 == nil ==> len(result0) == len(columns)
+//@   ensures [untagged-wider-result-is-a-mismatch] calls(getTaggedFieldValueMap) == 1 && ret(getTaggedFieldValueMap, 1) == nil && len(ret(getTaggedFieldValueMap, 0)) == 0 && len(ret(unwrapFields)) < len(columns) ==> result1 == ErrNotMatchDestination && result0 == nil
 
 // A single-row query on an empty result reports the scanner's error, else ErrNotFound.
 //@ func unmarshalRow
